@@ -7,10 +7,20 @@ REPO = "/repo"
 MUTS = {
  "h1-close-header": ("src/h1.c", 'CONST_STR_LEN("Connection"),\n                                 CONST_STR_LEN("close"));\n    }\n    else if (r->http_version == HTTP_VERSION_1_0)',
                      'CONST_STR_LEN("Connection"),\n                                 CONST_STR_LEN("Close"));\n    }\n    else if (r->http_version == HTTP_VERSION_1_0)', ["C04"]),
+ "deflate-no-vary-fresh": ("src/mod_deflate.c", 'http_header_response_append(r, HTTP_HEADER_VARY,\n\t\t\t\t\t    CONST_STR_LEN("Vary"),\n\t\t\t\t\t    CONST_STR_LEN("Accept-Encoding"));', '(void)r;', ["C19"]),
  "deflate-no-vary": ("src/mod_deflate.c", 'buffer_append_string_len(vb, CONST_STR_LEN(",Accept-Encoding"));', '(void)vb;', ["C19"]),
  "read-idle-uses-write-idle": ("src/h1.c", ": (int)r->conf.max_read_idle;", ": (int)r->conf.max_write_idle;", ["C13"]),
  "etag-weak-prefix": ("src/http_etag.c", "if (s[0] == 'W' && s[1] == '/' ? (s+=2, weak_ok) : 1) {", "if (s[0] == 'W' && s[1] == '/' ? (s+=2, 1) : 1) {", ["C15"]),
- "range-last-byte": ("src/http_range.c", None, None, ["C15"]),
+ "rr-wrap": ("src/gw_backend.c", "for (ndx = 0; ndx <= (int) k; ++ndx) {", "for (ndx = 0; ndx < (int) k; ++ndx) {", ["C11"]),
+ "nonce-window": ("src/mod_auth.c", "ts > cur_ts || cur_ts - ts > 600) {", "ts > cur_ts || cur_ts - ts > 6000) {", ["C16"]),
+ "access-allow-any": ("src/mod_access.c", "return (match != NULL); /* allowed if match; denied if none matched */", "return 1 | (match != NULL);", ["C03"]),
+ "fcgi-unknown-record": ("src/mod_fastcgi.c", "\t\t\tchunkqueue_mark_written(hctx->rb, packet.len);\n\t\t\tbreak;\n\t\t}\n\t} while (0 == fin);",
+                         "\t\t\tchunkqueue_mark_written(hctx->rb, packet.len - packet.padding);\n\t\t\tbreak;\n\t\t}\n\t} while (0 == fin);", ["C10"]),
+ "webdav-copy-overwrite": ("src/mod_webdav.c", "if (!overwrite) /* copying into a non-dir ? */", "if (overwrite) /* copying into a non-dir ? */", ["C18"]),
+ "ims-equal-string-only": ("src/http-header-glue.c", "if (buffer_is_equal(lmod, vb)\n\t\t    || !http_date_if_modified_since(BUF_PTR_LEN(vb), lmtime)) {", "if (buffer_is_equal(lmod, vb)) {", ["C15"]),
+ "inm-then-ims": ("src/http-header-glue.c", "\t} else if (http_method_get_head_query(r->http_method)\n\t\t   && (vb = http_header_request_get(r, HTTP_HEADER_IF_MODIFIED_SINCE,",
+                  "\t}\n\tif (http_method_get_head_query(r->http_method)\n\t\t   && (vb = http_header_request_get(r, HTTP_HEADER_IF_MODIFIED_SINCE,", ["C15"]),
+ "else-link": ("src/configparser.y", "    C->prev = B;\n    B->next = C;\n    A = C;", "    C->prev = B;\n    A = C;", ["C14"]),
 }
 
 
